@@ -113,6 +113,7 @@ def example_graphs():
 
 
 def run_shard(ctx, K=None):
+    gg.ALLOW_ODD = True  # node names that are not Python identifiers are node names like any other
     K = K or {"quick": 2, "thorough": 4}[ctx.tier]
     mon_id.install(semantic=True, K=K, max_card=3)
     mon_id.CONFIG["max_nodes_semantic"] = 6
